@@ -7,6 +7,7 @@
 -/
 import WR.C12.Lemmas
 import WR.C02.Lemmas
+import WR.C02.Termination
 namespace WR.Props.C12
 open WR.C02 WR.C12
 
@@ -72,23 +73,54 @@ theorem blank_page_unnamed (ltr : Bool) (index : Nat) (s : PState) (h : (pageInf
 
 /-! ## named pages -/
 
-/- FULL STATEMENT (false on the unchanged tree, F12-1 / KF12-1):
-
-   theorem named_page_change_forces_break (p c : Box) : nameStop p c = true ↔ p.pgEnd ≠ c.pgStart
-
-   "a change of named page" forces a break; the code (`blockLevelPageName` returning "" for the unnamed
-   page, read as "no change" by `inFlowLayout`) only stops when the page that is ENTERED has a name. -/
-
-/-- what the code does: a break is forced exactly when the named page changes AND the new one is named -/
-theorem named_page_change_forces_break_partial (p c : Box) :
-    nameStop p c = true ↔ (p.pgEnd ≠ c.pgStart ∧ c.pgStart ≠ 0) := by
+/-- **A change of named page forces a break** (F12-1, fixed in /repo by 67f534b): between two in-flow
+    siblings the break is forced exactly when the page name at the end of the first differs from the
+    page name at the start of the second — including a change to or from the unnamed page. -/
+theorem named_page_change_forces_break (p c : Box) : nameStop p c = true ↔ p.pgEnd ≠ c.pgStart := by
   simp [nameStop]
 
-/-- negation witness of the full statement: leaving page `n1` for the unnamed page forces no break
-    (replayed against the real code by the judge `forced-break-starts-page`, key `named-page-left`) -/
-theorem named_page_left_no_break :
-    nameStop (.para { pg := 1 } [1]) (.para { pg := 0 } [2]) = false ∧
-    (Box.para { pg := 1 } [1]).pgEnd ≠ (Box.para { pg := 0 } [2]).pgStart := by decide
+/-- … and the layout acts on it: when the child `c` about to be laid out follows an in-flow sibling `p`
+    with a different page name, the child loop stops BEFORE `c` (nothing of `c` is placed, the resume
+    position is the start of `c`) and requests `c`'s page name for the next page — for every oracle,
+    every geometry state, with or without content already on the page. -/
+theorem named_page_change_stops (O : Oracle γ) (c p : Box) (ks : Boxes) (index i0 : Nat) (sub : RS) (g : γ)
+    (pie : Bool) (nb : NextPage) (hi : ¬ index < i0) (h : p.pgEnd ≠ c.pgStart) :
+    layKids O (.cons c ks) index i0 sub (some p) g pie nb =
+      .ok .nil (some (.at index .start)) g none { brk := some (between p c), pg := c.pgStart, changed := true } := by
+  have hn : nameStop p c = true := (named_page_change_forces_break p c).mpr h
+  rw [layKids]
+  simp [hi, pbOf, nsOf, hn]
+
+/-- The requested name — even the unnamed page 0 — is not overwritten on the way up: every enclosing
+    block hands a `changed` request through unchanged (before the fix `pg = 0` was refilled from the
+    fragment's end page value). -/
+theorem changed_name_kept (O : Oracle γ) (st : St) (gE : γ) (pie : Bool) (fs : Frags) (r : Option RS) (g' : γ)
+    (eb : EB Frags) (nb : NextPage) (br : BRes γ) (hc : nb.changed = true)
+    (h : finishBlock O st gE pie fs r g' eb nb = .ok br) : br.nb = nb := by
+  unfold finishBlock at h
+  split at h
+  · simp at h
+  · simp only [BOut.ok.injEq] at h
+    subst h
+    simp [hc]
+
+/-- The page made from a `changed` request is a forced-break page and, unless it has to be a blank
+    page, carries the requested name. -/
+theorem next_page_carries_name (ltr : Bool) (index : Nat) (s : PState) (hc : s.nb.changed = true) :
+    (pageInfo ltr index s).forced = true ∧
+    ((pageInfo ltr index s).blank = false → (pageInfo ltr index s).name = s.nb.pg) := by
+  unfold pageInfo
+  simp only
+  refine ⟨by simp [hc], ?_⟩
+  intro hb
+  simp [hb]
+
+/-- regression example (the former negation witness): leaving page `n1` for the unnamed page forces a break -/
+example : nameStop (.para { pg := 1 } [1]) (.para { pg := 0 } [2]) = true := by decide
+
+/-- regression example: … and entering a named page from the unnamed page does too -/
+example : nameStop (.para { pg := 0 } [1]) (.para { pg := 2 } [2]) = true ∧
+    nameStop (.para { pg := 2 } [1]) (.para { pg := 2 } [2]) = false := by decide
 
 /-! ## @page selectors and the cascade -/
 
@@ -157,5 +189,14 @@ theorem paginateWith_conserves (rules : List Rule) (lineH : Int) (ltr : Bool) (r
     pagesLeaves (paginateWith rules lineH ltr root fuel).pages = root.leaves := by
   have := (pagesLoop_conserve (geoPages lineH (dimsOf rules)) ltr root fuel 0 (initState ltr root)).2 hd
   simpa [paginateWith, paginate, initState, Box.from_start] using this
+
+/-- … and the page loop always ends: for every well-formed class-F document, every @page rule set and
+    line height, `2·#lines+1` pages suffice and the pages are the document's lines (C02 `paginate_progress`
+    at the instance the C12 driver executes) -/
+theorem paginateWith_total (rules : List Rule) (lineH : Int) (ltr : Bool) (root : Box) (hwf : root.wf = true) :
+    (paginateWith rules lineH ltr root (2 * root.leaves.length + 1)).done = true ∧
+    pagesLeaves (paginateWith rules lineH ltr root (2 * root.leaves.length + 1)).pages = root.leaves := by
+  have hd := paginate_done (geoPages lineH (dimsOf rules)) ltr root hwf
+  exact ⟨hd, paginateWith_conserves rules lineH ltr root _ hd⟩
 
 end WR.Props.C12
